@@ -1,7 +1,8 @@
 """C12 — requests are normalised consistently: host, party and scheme classification."""
+import os
 import re
 
-from analysis import a7
+from analysis import a7, extract
 from analysis.facts import strip_generics
 from analysis.guards import dominating_conditions, has_cond, conditional_defs
 from analysis.pathinterp import enumerate_paths, path_value
@@ -23,6 +24,15 @@ EXPLANATION = (
 )
 NOT_DECIDED = ("That addr's public-suffix answer is right and that the reported hostname equals WHATWG host "
                "parsing (value level, dependency).")
+
+
+def _closure_calls_suffix(F, expr):
+    """the fallback of `root()` is the public suffix of the same parse (`unwrap_or_else(|| name.suffix())`)"""
+    for cname in re.findall(r"closure\[(.+?)\]\(", expr):
+        c = F.fns.get(cname)
+        if c is not None and c.calls(r"^addr::(domain|dns)::Name::suffix$"):
+            return True
+    return "::suffix(" in expr
 
 
 def check(run):
@@ -132,16 +142,18 @@ def rule_party(run, F, cfg):
         c = dominating_conditions(f, b)
         src_parsed = [v for k, v in c.items() if re.search(r"^discr\(url_parser::parse_url\(arg:source_url\)\)$", k)]
         if src_parsed == [1]:
-            good = bool(re.search(r"::ne\(url_parser::RequestUrl::domain\(url_parser::parse_url\(arg:source_url\)@Some\.0\), "
-                                  r"url_parser::RequestUrl::domain\(url_parser::parse_url\(arg:url\)@Some\.0\)\)$", e))
+            D = lambda who: r"(?:core::str::trim_end_matches\()?url_parser::RequestUrl::domain\(url_parser::parse_url\(arg:" + who + r"\)@Some\.0\)(?:, '\.'\))?"
+            m_ = re.search(r"::ne\((" + D("source_url") + r"), (" + D("url") + r")\)$", e)
+            # both sides are compared without their trailing dots
+            good = bool(m_) and m_.group(1).startswith("core::str::trim_end_matches(") and m_.group(2).startswith("core::str::trim_end_matches(")
             seen.add("both")
         else:
             good = e == "true"
             seen.add("nosource")
         ok = ok and good
     run.ob("C12.3.party", "third_party-provenance", ok and seen == {"both", "nosource"},
-           "Request::new: third_party = (source.domain() != url.domain()) where the source URL parsed, and the "
-           "constant true where it did not", site=f.loc(0), config=cfg)
+           "Request::new: third_party = (source.domain() != url.domain()), both read without trailing dots (`example.com.` "
+           "is the fully qualified spelling of `example.com`), where the source URL parsed, and the constant true where it did not", site=f.loc(0), config=cfg)
     d = F.fn("url_parser::RequestUrl::domain")
     e = d.expr_local(0)
     okd = "arg:self.hostname_pos.0" in e and "arg:self.domain.0" in e and "arg:self.domain.1" in e
@@ -350,13 +362,40 @@ def rule_host_span(run, F, cfg):
             empty = c.get("core::str::is_empty(arg:host)")
             psl = [v for k, v in c.items() if "parse_domain_name(" in k and k.startswith("discr(")]
             rows.append((empty, psl[0] if psl else None, tuple(g.expr_operand(o) for o in st["rv"]["ops"])))
-    err_row = [r for r in rows if r[0] == 0 and r[1] == 1]
-    ok_row = [r for r in rows if r[0] == 0 and r[1] == 0]
-    run.ob("C12.6.host-span", "domain-of-unlisted-host-is-the-host",
-           len(err_row) == 1 and err_row[0][2] == ("0", "core::str::len(arg:host)")
-           and len(ok_row) == 1 and ok_row[0][2][1] == "core::str::len(arg:host)" and ok_row[0][2][0].startswith("(core::str::len(arg:host) SubWithOverflow "),
-           "get_host_domain: a host the public-suffix parser rejects is its own registrable domain (0, host.len()); "
-           f"otherwise (host.len() - domain.len(), host.len()) (rows: {rows})", site=g.loc(0), config=cfg)
+    # rows: empty host -> (0, 0); a host no parser accepts -> (0, len); otherwise (len - |domain|, len) with the domain
+    # taken from addr's parse of this very host (registry rules first, plain DNS-name rules for the hosts those reject
+    # only because of a character / label shape, never for numeric hosts)
+    shapes = []
+    for b, i, st in g.statements():
+        if st["k"] == "assign" and st["rv"]["k"] == "agg" and st["rv"].get("agg") == "tuple" and len(st["rv"]["ops"]) == 2:
+            a, z = (g.expr_operand(o) for o in st["rv"]["ops"])
+            c = dominating_conditions(g, b)
+            dom = [v for k, v in c.items() if k.startswith("discr(") and "parse_domain_name(" in k and "kind(" not in k]
+            dns = [v for k, v in c.items() if k.startswith("discr(") and "parse_dns_name(" in k]
+            if c.get("core::str::is_empty(arg:host)") == 1:
+                shapes.append(("empty", (a, z) == ("0", "0")))
+            elif a == "0":
+                shapes.append(("whole-host", z == "core::str::len(arg:host)" and dom == [1] and dns in ([], [1])))
+            else:
+                from_parse = ("parse_domain_name(addr::psl::List::List{}, arg:host)" in a and dom == [0]) or \
+                             ("parse_dns_name(addr::psl::List::List{}, arg:host)" in a and dom == [1] and dns == [0])
+                shapes.append(("suffix", z == "core::str::len(arg:host)" and a.startswith("(core::str::len(arg:host) SubWithOverflow ")
+                               and "::root(" in a and _closure_calls_suffix(F, a) and from_parse))
+    kinds = [sorted(v for v, _ in t["targets"]) for b2 in sorted(g.normal_blocks()) for t in [g.blocks[b2]["t"]]
+             if t["k"] == "switch" and "addr::error::Error::kind(" in g.expr_operand(t["discr"])]
+    lock = open(os.path.join(extract.REPO, "Cargo.lock")).read()
+    addr_ok = bool(re.search(r'name = "addr"\nversion = "0\.15\.6"', lock))
+    names = {6: "IllegalCharacter", 9: "LabelEndNotAlnum", 10: "LabelStartNotAlnum", 15: "NumericTld"}
+    ok = sorted(k for k, _ in shapes) == ["empty", "suffix", "suffix", "whole-host", "whole-host"] and all(v for _, v in shapes)
+    ok_k = kinds == [[6, 9, 10]] and addr_ok
+    run.ob("C12.6.host-span", "domain-of-unlisted-host-is-the-host", ok and ok_k,
+           "get_host_domain: (0, 0) for the empty host, (0, host.len()) for a host the public-suffix parser rejects, "
+           "otherwise (host.len() - domain.len(), host.len()) with the domain addr finds in this host. Only the "
+           "IllegalCharacter / LabelStartNotAlnum / LabelEndNotAlnum rejections are retried as a plain DNS name: retrying "
+           "NumericTld would make 1.2.3.4 and 9.9.3.4 the same site "
+           f"(rows: {shapes}; retried error kinds: {[[names.get(k, k) for k in ks] for ks in kinds]}; addr 0.15.6 pinned: {addr_ok})",
+           site=g.loc(0), config=cfg)
+
 
 
 def rule_whole_url(run, F, cfg):
